@@ -341,7 +341,13 @@ def run_model(comp, scripts, **kw):
 
 
 def run_harness(name, scripts, args=(), **kw):
-    return run_sharded([os.path.join(BIN, name)] + list(args), scripts, **kw)
+    res = run_sharded([os.path.join(BIN, name)] + list(args), scripts, **kw)
+    # a script without any output line, or hit by an infrastructure failure (fork EAGAIN, shard timeout on a loaded
+    # machine), is run once more, alone: only what the second run says is judged
+    again = [(sid, lines) for sid, lines in scripts if lines and (not res.get(sid) or any(l.startswith('!! harness-') for l in res.get(sid, [])))]
+    if again and len(again) <= max(50, len(scripts) // 20):
+        res.update(run_sharded([os.path.join(BIN, name)] + list(args), again, shards=min(4, len(again)), **{k: v for k, v in kw.items() if k != 'shards'}))
+    return res
 
 
 # --------------------------------------------------------------------------- shrinking
